@@ -150,6 +150,53 @@ theorem calcEpochs_length (saa occ : List Int) : ∀ mets : List Int, (calcEpoch
   | [_] => rfl
   | a :: b :: rest => by simp [calcEpochs, calcEpochs_length saa occ (b :: rest)]
 
+/-! ### the trajectory layer: closing the transition list (`_generic_binary_search`) -/
+
+theorem entrOf_head (s0 : Bool) (n : Nat) (hn : 0 < n) : (entrOf s0 n).head? = some (!s0) := by
+  cases n with
+  | zero => omega
+  | succ k => simp [entrOf, List.range_succ_eq_map]
+
+theorem entrOf_last (s0 : Bool) (n : Nat) (hn : 0 < n) : (entrOf s0 n).getLast? = some (if n % 2 = 1 then !s0 else s0) := by
+  cases n with
+  | zero => omega
+  | succ k =>
+    simp only [entrOf, List.range_succ, List.map_append, List.map_cons, List.map_nil, List.getLast?_append, List.getLast?_singleton]
+    simp
+    by_cases h : k % 2 = 0
+    · have : (k + 1) % 2 = 1 := by omega
+      simp [h, this]
+    · have h2 : (k + 1) % 2 = 0 := by omega
+      simp [h, h2]
+
+/-- **the closed transition list encodes the status**: for every time `t` of the window that is not a mark, `_bisect_odd` on the closed list
+says "inside" exactly when the alternating status that is `s0` at the window start, and flips at each located transition, is true at `t` -/
+theorem close_ends_bisect (start stop : Int) (s0 : Bool) (ts : List Int) (t : Int) (hne : ts ≠ []) (h1 : start < t) (h2 : t ≤ stop) :
+    bisectOdd (closeEnds start stop s0 ts (entrOf s0 ts.length)) t = (s0 ^^ bisectOdd ts t) := by
+  have hn : 0 < ts.length := List.length_pos_iff.mpr hne
+  have he : ts.isEmpty = false := by cases ts <;> simp_all
+  simp only [closeEnds, he, entrOf_head s0 _ hn, entrOf_last s0 _ hn, bisectOdd]
+  have hs : ¬ stop < t := by omega
+  cases s0 <;> by_cases hp : ts.length % 2 = 1 <;> simp [hp, h1, hs]
+  all_goals
+    generalize (List.filter (fun a => decide (a < t)) ts).length = k
+    rcases Nat.mod_two_eq_zero_or_one k with h | h <;> simp [h, Nat.add_mod]
+
+/-- … and it always has an even number of marks: it can be read as (entrance, exit) pairs -/
+theorem close_ends_even (start stop : Int) (s0 : Bool) (ts : List Int) :
+    (closeEnds start stop s0 ts (entrOf s0 ts.length)).length % 2 = 0 := by
+  by_cases hne : ts = []
+  · subst hne; cases s0 <;> simp [closeEnds]
+  · have hn : 0 < ts.length := List.length_pos_iff.mpr hne
+    have he : ts.isEmpty = false := by cases ts <;> simp_all
+    simp only [closeEnds, he, entrOf_head s0 _ hn, entrOf_last s0 _ hn]
+    cases s0 <;> by_cases hp : ts.length % 2 = 1 <;> simp [hp] <;> omega
+
+/-- closing only "when the number of transitions is odd" (a plausible simplification) is wrong: a window that starts and ends inside an
+epoch has an even number of transitions and needs both ends -/
+theorem close_ends_needs_both : closeEnds 0 100 true [10, 20] (entrOf true 2) = [0, 10, 20, 100] ∧
+    bisectOdd [10, 20] 5 = false := by decide
+
 /-- `_bin_gti` is only correct on sorted GTIs: an out-of-order list loses exposure (the `break`) -/
 theorem bin_gti_needs_sorted : binGti 0 10 [(5, 20), (1, 3)] = 5 ∧ sumOverlap 0 10 [(5, 20), (1, 3)] = 7 := by decide
 
